@@ -76,8 +76,8 @@ func handleALIGNB(params x86genParams, ctx *CodeGenContext) ([]byte, error) {
 		return nil, fmt.Errorf("handleALIGNB: invalid alignment boundary %d, must be a positive power of 2", alignBoundary)
 	}
 
-	// x86genParams から現在のバイトコード長を取得
-	currentLength := params.MachineCodeLen
+	// 現在のアドレス (ORG で設定された開始アドレス + 現在のバイトコード長) を基準に揃える (pass1 の LOC と同じ基準)
+	currentLength := int(ctx.DollarPosition) + params.MachineCodeLen
 	paddingSize := (alignBoundary - (currentLength % alignBoundary)) % alignBoundary
 
 	if paddingSize > 0 {
